@@ -54,6 +54,11 @@ TEXT = {
         "note": "Exactness on conflict-free problems is checked through C07's preferred closure. Universal statement for the solver not yet proved.",
         "technique": "executable causality oracle over the real call log + Lean proof of cache idempotence + exact cache correspondence",
     },
+    "C12": {
+        "text": "Partial proof + exact correspondence + per-run oracles. Lean (model MDet): a poll of should_cancel_with_value that sees the signal aborts with exactly that value, nothing else is logged, and the uncached get_candidates / get_dependencies it guards is never issued; a poll that does not see it has no effect. The harness measures the uncancelled run of each generated case and draws a plan from it (signal up at poll k for any k incl. never; signal raised while provider request j is served; persistent or transient), runs the real solver and the model under the plan and requires identical results, identical Cancelled values and identical provider call logs including every poll in order. Oracles on the implementation's log: Cancelled with the value seen, no provider request after observation or after the signal went up, a persistent signal is never answered with a solution or a conflict, no spurious Cancelled.",
+        "note": "Sync runtime here; cancellation while async requests are in flight is exercised by the async/reuse families (C10, C13). The universal statement for the whole solve loop is tied by correspondence, not proved.",
+        "technique": "Lean 4 lemmas on the model's poll sites + exact call-log correspondence under enumerated cancellation plans + oracles on the real log",
+    },
     "C14": {
         "text": "Partial proof + per-run oracles on the soft family (compatible, incompatible, duplicate, other-version, excluded, locked-out, Unknown-dependency soft solvables in any order): validB with the documented exemption on every answer; a solvable hard problem (verified decideSolvable) must not yield Unsolvable; histories accepted by the abstract system (Lean: an accepted history never fails on a solvable problem); no panic in debug or release. Two genuine defects (two solvables of one package; debug assertion on an excluded soft solvable) were found and repaired.",
         "note": "C14(c) (a compatible soft solvable is included) is not yet checked; universal statement not proved.",
